@@ -9,6 +9,7 @@ import (
 	"fmt"
 	"math/big"
 	"math/rand/v2"
+	"net/url"
 	"runtime"
 	"strings"
 	"sync"
@@ -257,11 +258,27 @@ func trunc(s string, n int) string {
 
 // ---- value strings over the XML Char production (DESIGN §2.2) ----
 
-var valueClasses = []string{"ascii", "markup", "space", "cr", "bmp", "astral", "lookalike", "empty", "long"}
+var valueClasses = []string{"ascii", "markup", "space", "cr", "bmp", "astral", "lookalike", "empty", "long", "source-literal"}
 
 // ValueString draws a string of the named class.
 func ValueString(r *rand.Rand, class string) string {
 	switch class {
+	case "source-literal":
+		// a string the library's own source spells out (marker, placeholder, identifier, field name), alone or embedded
+		w := DictWord(r)
+		if r.IntN(4) == 0 {
+			w = DictField(r)
+		}
+		if w == "" {
+			return "alice"
+		}
+		switch r.IntN(3) {
+		case 0:
+			return "x" + w + "y"
+		case 1:
+			return w + " " + DictWord(r)
+		}
+		return w
 	case "ascii":
 		return pick(r, []string{"alice", "bob@example.org", "CN=Jane Doe,OU=staff", "x", "a-b_c.d:e", "0123456789"})
 	case "markup":
@@ -354,4 +371,48 @@ func (p *SPPool) Copy(now time.Time, store ...*sim.Cert) (*saml2.SAMLServiceProv
 	}
 	cp.IDPCertificateStore = st
 	return &cp, p.clk, st
+}
+
+// NearVariant returns a value that differs from the configured value s but would equal it were s (or the value)
+// trimmed, case-folded, percent-decoded or -encoded, cut at ? or #, read as a list or a pattern - or that equals
+// one of the SP's other configured values (cross-field confusion).
+func NearVariant(r *rand.Rand, s string, others ...string) string {
+	opts := []string{s + "/", strings.ToUpper(s), s + " ", " " + s, strings.Replace(s, "https", "http", 1), s + ",https://other.example.test/x", s + "?x=1", s + "#f", s + "\t", s + "\n"}
+	if len(s) > 1 {
+		opts = append(opts, s[:len(s)-1])
+	}
+	if ps := strings.FieldsFunc(s, func(c rune) bool { return strings.ContainsRune(",;| ", c) }); len(ps) > 1 {
+		opts = append(opts, ps[r.IntN(len(ps))], ps[0], ps[len(ps)-1])
+	}
+	if strings.Contains(s, "*") {
+		opts = append(opts, strings.Replace(s, "*", "anything", 1), strings.Replace(s, "*", "", 1))
+	}
+	if u, err := url.QueryUnescape(s); err == nil && u != s {
+		opts = append(opts, u)
+	}
+	if len(s) > 0 {
+		// one character of s percent-encoded (a reserved one when there is one)
+		i := r.IntN(len(s))
+		if j := strings.LastIndexAny(s, "/:@.-_"); j >= 0 && r.IntN(2) == 0 {
+			i = j
+		}
+		opts = append(opts, s[:i]+fmt.Sprintf("%%%02X", s[i])+s[i+1:], s[:i]+fmt.Sprintf("%%%02x", s[i])+s[i+1:])
+	}
+	if i := strings.IndexAny(s, "?#"); i > 0 {
+		opts = append(opts, s[:i])
+	}
+	if l := strings.ToLower(s); l != s {
+		opts = append(opts, l)
+	}
+	for _, o := range others {
+		if o != s && o != "" {
+			opts = append(opts, o, o)
+		}
+	}
+	for try := 0; try < 8; try++ {
+		if v := opts[r.IntN(len(opts))]; v != s {
+			return v
+		}
+	}
+	return s + "/"
 }
